@@ -88,10 +88,14 @@ CHECKS = {
     'C04': dict(
         text='Lean theorems on the NameAssigner model: a binding that may not be renamed keeps its name for every input; every name given '
              'to a module-level binding carries the underscore prefix when rename_globals is off, and is otherwise a generator-table '
-             'name. Tie: assigner correspondence on dumped bindings. Which bindings the binder pins (class-level names, dunder names, '
-             'never-bound names, keyword-passable parameters) and which AST fields renaming writes are decided by an oracle on the real '
+             'name. arg_rename_in_place is modelled (PMV.InPlace) and its decision proved outright: a parameter is renamed in the '
+             'signature exactly when it is positional-only, *args, **kwargs or the first positional parameter of an undecorated / '
+             '@classmethod function in a class body; keyword-only and later positional parameters never are. Ties: assigner '
+             'correspondence on dumped bindings; argRenameInPlace vs the real function on every parameter of generated signatures. '
+             'Which other bindings the binder pins (class-level names, dunder names, '
+             'never-bound names) and which AST fields renaming writes are decided by an oracle on the real '
              'code that aligns input and output trees and demands identical spelling at every interface position.',
-        note='PARTIAL: bind_names/resolve_names pinning rules and Binding.rename are not modelled in Lean. Reading: first parameter of '
+        note='PARTIAL: bind_names/resolve_names pinning rules (other than arg_rename_in_place) and Binding.rename are not modelled in Lean. Reading: first parameter of '
              'undecorated/@classmethod methods, *args/**kwargs and positional-only parameters are the documented reflective views.',
         technique='Lean 4 proof (assigner model) + model/implementation correspondence + interface-position oracle on aligned trees',
         ref='§6 C04'),
@@ -108,10 +112,13 @@ CHECKS = {
     'C10': dict(
         text='Lean theorems: applyPreserve (model of allow_rename_locals/globals) pins every listed binding, and a pinned binding is never '
              'renamed by the assigner, for every program, list and option; the generated pipeline shows the lists reaching these stages. '
+             'find__all__ is modelled (PMV.Exports.findAll) with an exact specification (findAll_exact: a string is returned iff a simple '
+             'statement running at module level, not inside def/class, assigns a list display containing it to __all__) and '
+             'exported_names_kept; tie: the model vs the real function on generated modules with nested / shadowed / malformed __all__ forms. '
              'Oracle on the real code: random preserve lists (also a bare string, builtins, names bound in several scopes), literal '
              '__all__ lists in three statement forms, the awslambda entrypoint: listed names keep their spelling at every binding and '
              'reference and the output stays alpha-equivalent to the input.',
-        note='PARTIAL: find__all__ and the real allow_rename_* traversal are not modelled (applyPreserve is a hand model without correspondence '
+        note='PARTIAL: the real allow_rename_* traversal is not modelled (applyPreserve is a hand model without correspondence '
              'of its own; its effect is observed through the oracle). CLI list splitting is C13.',
         technique='Lean 4 proof (pinning + assigner model) + preserve-list oracle on aligned trees',
         ref='§6 C10'),
